@@ -884,40 +884,52 @@ def public_defaults(tree, fname, module_functions=False):
     return rows
 
 
-def function_source_lines(tree, fname, names):
-    """The statements (docstrings stripped, comments gone, normalised by ast.unparse) of the named module-level functions."""
+def name_codec_constants(tree, fname):
+    """The constants that decide what utils.get_variable_name_and_lag / get_name_with_lag compute, in source order:
+    ('regex', pattern) for EVERY regular expression used anywhere in utils.py (first argument of a `re.<function>` call, which
+    must be a string constant), and ('return', text) for every value returned by get_name_with_lag (f-strings as their template).
+    Control flow, local names, messages and docstrings are deliberately NOT part of it: restructuring the two functions without
+    touching a pattern or a name template changes nothing here."""
     fns = {n.name: n for n in tree.body if isinstance(n, ast.FunctionDef)}
-    out = []
-    for name in names:
-        if name not in fns:
-            fail('function %s not found' % name, None, fname)
-        n = fns[name]
-        if n.decorator_list:
-            fail('function %s is decorated' % name, n, fname)
-        body = list(n.body)
-        if body and isinstance(body[0], ast.Expr) and isinstance(body[0].value, ast.Constant) and isinstance(body[0].value.value, str):
-            body = body[1:]
-        out.append('def %s(%s):' % (name, ast.unparse(n.args)))
-        # messages of raise / assert statements are not behaviour that any property speaks about: keep the exception class only
-        body = copy.deepcopy(body)
-        for st in body:
-            for x in ast.walk(st):
-                if isinstance(x, ast.Raise) and isinstance(x.exc, ast.Call):
-                    x.exc = x.exc.func
-                elif isinstance(x, ast.Assert):
-                    x.msg = None
-        for st in body:
-            for line in ast.unparse(st).splitlines():
-                out.append('    ' + line)
-    # the names must not be rebound elsewhere in the module
+    for need in ('get_variable_name_and_lag', 'get_name_with_lag'):
+        if need not in fns:
+            fail('function %s not found' % need, None, fname)
+        if fns[need].decorator_list:
+            fail('function %s is decorated' % need, fns[need], fname)
+    if sum(1 for n in ast.walk(tree) if isinstance(n, ast.FunctionDef) and n.name in ('get_variable_name_and_lag', 'get_name_with_lag')) != 2:
+        fail('a name-codec function is defined more than once', None, fname)
     for n in ast.walk(tree):
+        if isinstance(n, (ast.Import, ast.ImportFrom)):
+            for a in n.names:
+                if (a.name == 're' and a.asname not in (None, 're')) or (isinstance(n, ast.ImportFrom) and n.module == 're'):
+                    fail('the re module is imported under another name', n, fname)
         if isinstance(n, (ast.Assign, ast.AugAssign, ast.AnnAssign)):
             for t in (n.targets if isinstance(n, ast.Assign) else [n.target]):
-                if isinstance(t, ast.Name) and t.id in names:
+                if isinstance(t, ast.Name) and t.id in ('get_variable_name_and_lag', 'get_name_with_lag', 're'):
                     fail('%s is re-assigned' % t.id, n, fname)
-    if sum(1 for n in ast.walk(tree) if isinstance(n, ast.FunctionDef) and n.name in names) != len(names):
-        fail('a name-codec function is defined more than once', None, fname)
-    return out
+    rows = []
+    calls = [n for n in ast.walk(tree) if isinstance(n, ast.Call) and isinstance(n.func, ast.Attribute)
+             and isinstance(n.func.value, ast.Name) and n.func.value.id == 're']
+    for c in sorted(calls, key=lambda c: (c.lineno, c.col_offset)):
+        if not c.args or not (isinstance(c.args[0], ast.Constant) and isinstance(c.args[0].value, str)):
+            fail('re.%s is called with a pattern that is not a string constant' % c.func.attr, c, fname)
+        rows.append(('regex', c.args[0].value))
+    rets = [n for n in ast.walk(fns['get_name_with_lag']) if isinstance(n, ast.Return)]
+    # local names are replaced by v0, v1, ... in order of first appearance (parameters keep their names): renaming a local is
+    # not a change of the template
+    params = {a.arg for a in fns['get_name_with_lag'].args.args + fns['get_name_with_lag'].args.kwonlyargs}
+    ren = {}
+    for r in sorted(rets, key=lambda r: (r.lineno, r.col_offset)):
+        if r.value is None:
+            rows.append(('return', 'None'))
+            continue
+        v = copy.deepcopy(r.value)
+        names = sorted((x for x in ast.walk(v) if isinstance(x, ast.Name)), key=lambda x: (x.lineno, x.col_offset))
+        for x in names:
+            if x.id not in params:
+                x.id = ren.setdefault(x.id, 'v%d' % len(ren))
+        rows.append(('return', ast.unparse(v)))
+    return rows
 
 
 def sha256(path):
@@ -1123,11 +1135,11 @@ def generate(repo_root):
         'list (string * string * string * string)',
         coq_list([coq_tuple(*[coq_string(x) for x in r]) for r in rows], one_per_line=True),
     )
-    out.append('(* get_variable_name_and_lag / get_name_with_lag of utils.py, statement by statement (docstrings stripped, ast.unparse) *)')
+    out.append('(* the regular expressions of utils.py and the values returned by get_name_with_lag (see name_codec_constants) *)')
     emit(
-        'name_codec_source',
-        'list string',
-        coq_list([coq_string(x) for x in function_source_lines(trees['ut'], rel['ut'], ['get_variable_name_and_lag', 'get_name_with_lag'])], one_per_line=True),
+        'name_codec_constants',
+        'list (string * string)',
+        coq_list([coq_tuple(coq_string(a), coq_string(b)) for a, b in name_codec_constants(trees['ut'], rel['ut'])], one_per_line=True),
     )
 
     watched = set(CORE_ATTRS) | cache_universe | {RESET_METHOD, RESET_DECORATOR}
